@@ -188,6 +188,8 @@ def monOp (op : String) (args : List String) : Option String :=
       let (entry, ts) ← pNat ts
       let (uh, ts) ← pHist ts
       let (th, ts) ← pHist ts
+      let (no, ts) ← pNat ts
+      let (others, ts) ← pRepeat pHist no ts
       let (nf, ts) ← pNat ts
       let (fs, ts) ← pRepeat (fun ts => do
         let (r, ts) ← pNat ts
@@ -196,7 +198,7 @@ def monOp (op : String) (args : List String) : Option String :=
         let (d, ts) ← pTok ts
         let (cd, ts) ← pNat ts
         pure ((r, s, e, d, cd), ts)) nf ts
-      pure (({ entry := entry, uh := uh, th := th, farms := fs } : ClaimLp), ts)) nlp ts
+      pure (({ entry := entry, uh := uh, th := th, others := others, farms := fs } : ClaimLp), ts)) nlp ts
     let (nd, ts) ← pNat ts
     let (paid, ts) ← pRepeat (fun ts => do
       let (d, ts) ← pTok ts
@@ -220,6 +222,12 @@ def monOp (op : String) (args : List String) : Option String :=
     let (sa, _) ← pNat ts
     let amp := match p.ptype with | .stable a => a | .cp => 1
     some (verdict (monSsLp amp p.decimals (p.assets.map (·.amount)) after sb sa))
+  | "mon_close_refunds" => do
+    let (_n, ts) ← pNat args
+    let (missing, ts) ← pNat ts
+    let (fault, _) ← pBit ts
+    some (if !fault && missing != 0 then "viol C11-close-refund"
+      else if fault && missing > 1 then "viol C20-refund-failure-spreads" else "ok")
   | "mon_farm_close" => do
     let (remaining, ts) ← pNat args
     let (ownerGot, ts) ← pInt ts
